@@ -325,6 +325,16 @@ CHECKS = {
              "strings without class Q, and TLC demonstrates it fails with Q (NFKC image is the delimiter); the real "
              "functions are swept over every code point in up to 8 contexts and random names.",
         note="Names whose body starts with hyx_ are excluded as the property states."),
+    "C34": dict(
+        engine="names", level="model_checking", design="5.5, 6/C34",
+        technique="HyNames is a store keyed by HyMangle!Mangle of the name; TLC enumerates (definition, optional second "
+                  "definition, use) over constructs and names and exports which value the use must see; each program is "
+                  "compiled and run",
+        text="18 defining and 15 using constructs over module variables, macros, parameters, keyword dictionaries and "
+             "attributes x 10 names (hyphen / underscore variants, leading and trailing hyphens, illegal characters); laws: "
+             "hyphen = underscore except in first position, sameness is an equivalence, every identifier is an identifier.",
+        note="Names are drawn over one letter plus - _ !, so the character-class string of HyMangle determines the name. "
+             "Unicode normalisation of names is covered by C32/C33 on mangle itself."),
     "C35": dict(
         engine="macros", level="model_checking", design="5.7, 6/C35",
         technique="TLC enumerates (and simulates) histories of HyMacros with the documented lookup order and require "
